@@ -248,6 +248,30 @@ theorem minable_always (W : TxAbs → Prop) (U : Universe W) (pol : Policy) (mat
   obtain ⟨e, he, rfl⟩ := mem_txs.1 ht
   exact fl e he (hfresh e he)
 
+/-! ### policy arithmetic -/
+
+/-- `GetDustThreshold` reproduces the well-known thresholds (times minRelay/1000): P2PKH 546, P2SH 540,
+P2WPKH 294, P2WSH / P2TR 330 -/
+theorem dust_thresholds : dustThreshold 25 false = 546 ∧ dustThreshold 23 false = 540 ∧
+    dustThreshold 22 true = 294 ∧ dustThreshold 34 true = 330 := by decide
+
+/-- an unspendable output is always dust; with a zero relay fee no spendable non-negative output is -/
+theorem isDust_unspendable (v : Int) (l : Nat) (w : Bool) (r : Int) : isDust v l w true r = true := by
+  simp [isDust]
+
+theorem isDust_zero_rate (v : Int) (l : Nat) (w : Bool) (hv : 0 ≤ v) : isDust v l w false 0 = false := by
+  have h : 0 ≤ Int.tdiv (v * 1000) (dustThreshold l w) :=
+    Int.tdiv_nonneg (by omega) (by exact Int.natCast_nonneg _)
+  simp only [isDust, Bool.false_or, decide_eq_false_iff_not]
+  omega
+
+/-- `GetTxVirtualSize`: without witness data the virtual size is the size; otherwise it lies between the
+stripped and the full size -/
+theorem virtualSize_no_witness (s : Nat) : virtualSize s s = s := by unfold virtualSize; omega
+
+theorem virtualSize_bounds (s t : Nat) (h : s ≤ t) : s ≤ virtualSize s t ∧ virtualSize s t ≤ t := by
+  unfold virtualSize; omega
+
 /-! ### constants pinned to the tree -/
 
 theorem pin_maxRBFSequence : Generated.C10.maxRBFSequence = (maxRBFSequence : Int) := by decide
